@@ -177,7 +177,9 @@ def _conventional(rep):
 
         def com_contract(it, st, bound, site):
             st.prove(site + ".pre.fully-periodic-for-centring", z3.BoolVal(all(bool(x) for x in bound["system"].pbc)))
-            return np.array([SR(st.fresh_real("cm")) for _ in range(3)], dtype=object)
+            cm = np.array([SR(st.fresh_real("cm")) for _ in range(3)], dtype=object)
+            st.ghost["cm"] = cm.copy()
+            return cm
 
         def min_contract(it, st, bound, site):
             st.ghost["min_args"] = (bound["system"], bound["axis"], bound["min_size"], bound["system"].cell.copy(), bound["system"].pbc.copy(), list(bound["system"].mutations))
@@ -225,6 +227,22 @@ def _conventional(rep):
                 alts.append(z3.And(rows_ok, pred, first))
             st.prove("non-periodic-vector-last-others-kept", z3.Or(alts))
             st.prove("atoms-wrapped-and-centred-before", z3.BoolVal("wrap" in muts and "translate" in muts))
+            # centring (so that the sheet is not split by the cell boundary when the cell is minimised): one shift that puts the periodic
+            # centre of mass at the cell centre along the detected non-periodic direction - whichever row of the standardised cell that is
+            trs = getattr(ideal, "translations", [])
+            cm = st.ghost.get("cm")
+            st.prove("centred-once", z3.BoolVal(len(trs) == 1 and cm is not None))
+            if len(trs) == 1 and cm is not None:
+                t = trs[0]
+                centre = [z3.Sum([z3num(c0[b, q]) for b in range(3)]) / 2 for q in range(3)]
+                alts2 = []
+                for a in range(3):
+                    pred = z3.And(ab(T[a, k]) > prec, ab(T[a, (k + 1) % 3]) < prec, ab(T[a, (k + 2) % 3]) < prec)
+                    first = z3.And([z3.Not(z3.And(ab(T[b, k]) > prec, ab(T[b, (k + 1) % 3]) < prec, ab(T[b, (k + 2) % 3]) < prec)) for b in range(a)])
+                    # only the component along the non-periodic direction matters (an in-plane shift describes the same sheet)
+                    shift = z3num(t[a]) == centre[a] - z3num(cm[a])
+                    alts2.append(z3.And(pred, first, shift))
+                st.prove("periodic-centre-of-mass-moved-to-the-cell-centre-along-the-non-periodic-direction", z3.Or(alts2))
             st.prove("letters-from-the-ground-state", z3.BoolVal(ctx["self"]._f.get("_conventional_wyckoff_letters") == "LETTERS"))
 
         run_fv(rep, "conventional[nonperiodic=%d]." % k, m, "SymmetryAnalyzer.get_conventional_system", mk, post, raises=raises, max_paths=4000,
@@ -254,6 +272,17 @@ def replay(ob):
 
     fails = []
     layers = [("graphene", graphene(vacuum=6)), ("MoS2", mx2("MoS2", vacuum=6)), ("BN", graphene("BN", vacuum=6))]
+    # buckled layers on an oblique lattice: monoclinic layer groups, whose standard setting does not put the sheet normal on c
+    g = np.radians(100.0)
+    ocell = np.array([[3.1, 0, 0], [4.85 * np.cos(g), 4.85 * np.sin(g), 0], [0, 0, 12.0]])
+
+    def oblique(symbols, frac, heights):
+        pos = [f[0] * ocell[0] + f[1] * ocell[1] + np.array([0, 0, 6.0 + h]) for f, h in zip(frac, heights)]
+        return Atoms(symbols=symbols, positions=pos, cell=ocell, pbc=[True, True, False])
+
+    layers.append(("oblique 2/m layer", oblique(["Ge"] * 4 + ["S"] * 4, [(0.1, 0.2), (0.9, 0.8), (0.1, 0.2), (0.9, 0.8), (0.4, 0.3), (0.6, 0.7), (0.4, 0.3), (0.6, 0.7)],
+                                                [0.35, 0.35, -0.35, -0.35, -0.9, -0.9, 0.9, 0.9])))
+    layers.append(("oblique m layer", oblique(["Ge", "Ge", "S", "S", "Sn"], [(0.1, 0.2), (0.1, 0.2), (0.4, 0.3), (0.4, 0.3), (0.7, 0.6)], [0.35, -0.35, -0.9, 0.9, 0.0])))
     for name, lay in layers:
         ref = None
         for vac, perm, rep_ in itertools.product((5.0, 9.0), ((0, 1, 2), (2, 0, 1), (0, 2, 1)), ((1, 1, 1), (2, 1, 1))):
